@@ -98,12 +98,19 @@ func sweepRequires(fn *ssa.Function) []string {
 				}
 			}
 		case isAstPtr(t) || isRepoStructPtr(t):
-			rs = append(rs, name+" != nil")
+			nilable := isAstPtr(t) && sweepEngine != nil && sweepEngine.nilableParam(fn, i)
+			if !nilable {
+				rs = append(rs, name+" != nil")
+			}
 			if isAstPtr(t) {
+				pre := ""
+				if nilable {
+					pre = name + " == nil || "
+				}
 				if sweepEngine != nil && sweepEngine.sentinelParam(fn, i) {
-					rs = append(rs, "tnodeOrSentinel("+name+")")
+					rs = append(rs, pre+"tnodeOrSentinel("+name+")")
 				} else {
-					rs = append(rs, "tnode("+name+")")
+					rs = append(rs, pre+"tnode("+name+")")
 				}
 			}
 			if strings.HasSuffix(t.String(), "linter.CheckerContext") {
@@ -517,6 +524,24 @@ func writeLedger(prop string, jobs []job) {
 		sort.Strings(ks)
 		os.WriteFile(filepath.Join(verifDir, "ledger", "C01.sentinel-params"), []byte("# parameters assumed to be a tree node OR the all-zero node astcast.NilX (their strict guarantee fails at some call site); regenerate with VERIF_WRITE_LEDGER=1 until no line is added\n"+strings.Join(ks, "\n")+"\n"), 0o644)
 		fmt.Printf("ledger: %d sentinel-tolerant parameters (%d added in this run; rerun until 0 are added)\n", len(ks), added)
+		curN := loadLedger("C01", "nilable-params")
+		addedN := 0
+		for _, j := range jobs {
+			if strings.HasPrefix(j.o.Meta, "nilparam:") && j.o.Result != "unsat" {
+				k := strings.TrimPrefix(j.o.Meta, "nilparam:")
+				if !curN[k] {
+					curN[k] = true
+					addedN++
+				}
+			}
+		}
+		var kn []string
+		for k := range curN {
+			kn = append(kn, k)
+		}
+		sort.Strings(kn)
+		os.WriteFile(filepath.Join(verifDir, "ledger", "C01.nilable-params"), []byte("# syntax-node pointer parameters that are NOT assumed non-nil (some call site cannot prove it); regenerate with VERIF_WRITE_LEDGER=1 until no line is added\n"+strings.Join(kn, "\n")+"\n"), 0o644)
+		fmt.Printf("ledger: %d nilable node parameters (%d added in this run; rerun until 0 are added)\n", len(kn), addedN)
 	}
 	var names []string
 	for _, j := range jobs {
